@@ -560,6 +560,29 @@ func genC16(c *ctx) {
 					a.S, a.F = sref("SUser")
 				}
 			}
+			// caveats the discharge cannot take (table entry 5: a conditional wrapping an attestation): the decision fails as a
+			// whole. Immediate mode has no model action for it (nothing is stored either way): it is run on the implementation
+			// only and must answer an internal error without releasing anything. A background approval with such caveats
+			// behaves like an approval for an unknown secret (fails, changes nothing), which is the action the model is given.
+			if k >= len(script) && r.P(1, 8) && (a.Kind == "AApprovePoll" || a.Kind == "AApproveUser" || (a.Kind == "AInit" && a.Mode == "MImmediate" && a.T == "TValid")) {
+				bad := a
+				bad.Cavs = append(append([]uint64{}, a.Cavs...), 5)
+				if r.Bool() {
+					bad.Cavs = append([]uint64{5}, a.Cavs...)
+				}
+				ob := w.do(bad, r)
+				if bad.Kind == "AInit" {
+					if !(len(ob) >= 1 && ob[0] == 500) && oracle == "" {
+						oracle = fmt.Sprintf("immediate discharge with a caveat list the discharge refuses answered %v instead of an internal error (a discharge carrying only part of the application's caveats was released?)", ob)
+					}
+					continue
+				}
+				a = c16Act{Kind: bad.Kind, Cavs: bad.Cavs, S: "SGuess", InCtx: bad.InCtx}
+				acts = append(acts, a)
+				obs = append(obs, ob)
+				desc = append(desc, fmt.Sprintf("%s (refused caveats on flow %d) -> %v", a.Coq(), bad.F, ob))
+				continue
+			}
 			ob := w.do(a, r)
 			acts = append(acts, a)
 			obs = append(obs, ob)
